@@ -3,6 +3,7 @@ package main
 import (
 	"fmt"
 	"go/ast"
+	"go/constant"
 	"go/token"
 	"go/types"
 	"sort"
@@ -250,6 +251,124 @@ func astClears(c *Ctx, fd *ast.FuncDecl) map[string]bool {
 	return out
 }
 
+// ssaClears: interp fields whose every element is overwritten / deleted by a loop in fn, recognised on the SSA
+// form (so a local alias of the field, a counted loop or a range loop make no difference):
+//
+//	loop over i in [0, len(p.f)):  p.f[i] = v            (store into the element, in the loop body's first block)
+//	range over the map p.f:        delete(p.f, key)
+//	loop over the slice p.f:       range over p.f[i]: delete(p.f[i], key)
+func ssaClears(fn *ssa.Function) map[string]bool {
+	out := map[string]bool{}
+	if fn == nil {
+		return out
+	}
+	// the field a slice/map value was loaded from
+	fieldOf := func(v ssa.Value) string { return interpFieldLoad(v) }
+	// loopIndex: v is the index of a loop that runs over all of [0, len(X)); returns X and the body block
+	loopIndex := func(v ssa.Value) (ssa.Value, *ssa.BasicBlock) {
+		var ph *ssa.Phi
+		cmpOn := v // the value compared with len(X)
+		if bo, ok := v.(*ssa.BinOp); ok && bo.Op == token.ADD {
+			if p2, ok := bo.X.(*ssa.Phi); ok { // rangeindex: phi starts at -1, body uses phi+1
+				ph = p2
+			}
+		} else if p2, ok := v.(*ssa.Phi); ok { // counted loop: phi starts at 0, body uses phi
+			ph = p2
+		}
+		if ph == nil || len(ph.Edges) != 2 {
+			return nil, nil
+		}
+		start := int64(-99)
+		for _, e := range ph.Edges {
+			if k, ok := e.(*ssa.Const); ok && k.Value != nil {
+				if n, ok2 := constant.Int64Val(k.Value); ok2 {
+					start = n
+				}
+			}
+		}
+		if !((start == -1 && cmpOn != ssa.Value(ph)) || (start == 0 && cmpOn == ssa.Value(ph))) {
+			return nil, nil
+		}
+		refs := cmpOn.Referrers()
+		if refs == nil {
+			return nil, nil
+		}
+		for _, r := range *refs {
+			bo, ok := r.(*ssa.BinOp)
+			if !ok || bo.Op != token.LSS || bo.X != cmpOn {
+				continue
+			}
+			ln, ok := bo.Y.(*ssa.Call)
+			if !ok {
+				continue
+			}
+			if b, isB := ln.Call.Value.(*ssa.Builtin); !isB || b.Name() != "len" {
+				continue
+			}
+			for _, r2 := range *bo.Referrers() {
+				if iff, ok := r2.(*ssa.If); ok {
+					return ln.Call.Args[0], iff.Block().Succs[0]
+				}
+			}
+		}
+		return nil, nil
+	}
+	allInstrs(fn, func(in ssa.Instruction) {
+		switch x := in.(type) {
+		case *ssa.Store:
+			ia, ok := x.Addr.(*ssa.IndexAddr)
+			if !ok {
+				return
+			}
+			f := fieldOf(ia.X)
+			if f == "" {
+				return
+			}
+			over, body := loopIndex(ia.Index)
+			if over != nil && fieldOf(over) == f && x.Block() == body {
+				out[f] = true
+			}
+		case *ssa.Call:
+			b, ok := x.Call.Value.(*ssa.Builtin)
+			if !ok || b.Name() != "delete" || len(x.Call.Args) != 2 {
+				return
+			}
+			m := x.Call.Args[0]
+			// the key comes from a range over the same map
+			key := x.Call.Args[1]
+			ex, ok := key.(*ssa.Extract)
+			if !ok {
+				return
+			}
+			nx, ok := ex.Tuple.(*ssa.Next)
+			if !ok {
+				return
+			}
+			rg, ok := nx.Iter.(*ssa.Range)
+			if !ok {
+				return
+			}
+			if f := fieldOf(m); f != "" && fieldOf(rg.X) == f {
+				out[f] = true
+				return
+			}
+			// the map is an element of a slice field that an enclosing loop runs over completely
+			if m == rg.X {
+				if ld, ok := m.(*ssa.UnOp); ok && ld.Op == token.MUL {
+					if ia, ok := ld.X.(*ssa.IndexAddr); ok {
+						if f := fieldOf(ia.X); f != "" {
+							if over, _ := loopIndex(ia.Index); over != nil && fieldOf(over) == f {
+								out[f] = true
+							}
+						}
+					}
+				}
+			}
+		}
+	})
+	return out
+}
+
 func ruleReset(c *Ctx) {
 	_, st := c.structType("interp", "interp")
 	if st == nil {
@@ -269,38 +388,36 @@ func ruleReset(c *Ctx) {
 			return
 		}
 	}
-	// Execute/ExecuteContext must call resetCore before setExecuteConfig and executeAll on every path.
+	// Execute/ExecuteContext must call resetCore before executeAll on every path (either may be reached through a
+	// helper of the package)
 	for _, e := range []*ssa.Function{exec, execCtx} {
-		var rc, ea ssa.Instruction
-		allInstrs(e, func(in ssa.Instruction) {
-			if call, ok := in.(ssa.CallInstruction); ok {
-				if f := call.Common().StaticCallee(); f != nil {
-					if f == resetCore && rc == nil {
-						rc = in
-					}
-					if f.Name() == "executeAll" {
-						ea = in
-					}
-				}
-			}
-		})
 		key := "entry:" + e.Name()
-		if rc == nil || ea == nil {
-			c.bad(key, e.Pos(), "%s does not call both resetCore and executeAll", e.Name())
-		} else {
-			c.check(rc.Block().Dominates(ea.Block()) && rc.Block().Index <= ea.Block().Index, key, e.Pos(),
-				e.Name()+": resetCore dominates executeAll", e.Name()+": resetCore does not dominate executeAll")
+		if !reachesCall(e, "executeAll", 0, map[*ssa.Function]bool{}) {
+			c.bad(key, e.Pos(), "%s does not reach executeAll", e.Name())
+			continue
 		}
+		before := mustStoreBeforeCall(e, "executeAll")
+		c.check(before["call:resetCore"], key, e.Pos(), e.Name()+": resetCore is called on every path before executeAll", e.Name()+": resetCore is not called on every path before executeAll")
 	}
 
 	core := mustStoreAtSuccess(resetCore)
-	for k := range astClears(c, c.funcDecl("interp", "interp.resetCore")) {
-		core[k] = true
+	for _, fd := range resetHelpers(c, "interp.resetCore") {
+		for k := range astClears(c, fd) {
+			core[k] = true
+		}
+		for k := range ssaClears(c.ssaFunc("interp", "interp."+fd.Name.Name)) {
+			core[k] = true
+		}
 	}
 	cfg := mustStoreAtSuccess(setCfg)
 	vars := mustStoreAtSuccess(resetVars)
-	for k := range astClears(c, c.funcDecl("interp", "interp.resetVars")) {
-		vars[k] = true
+	for _, fd := range resetHelpers(c, "interp.resetVars") {
+		for k := range astClears(c, fd) {
+			vars[k] = true
+		}
+		for k := range ssaClears(c.ssaFunc("interp", "interp."+fd.Name.Name)) {
+			vars[k] = true
+		}
 	}
 	// ResetRand accesses p.interp.f: must-store works on FieldAddr of *interp too.
 	rnd := mustStoreAtSuccess(resetRand)
@@ -328,6 +445,35 @@ func ruleReset(c *Ctx) {
 	// companions: every store outside the reset functions takes its value from a vars field, or sits in setSpecial's case of a vars special
 	setSpecialCaseFields := setSpecialCaseStores(c)
 	resetFns := map[*ssa.Function]bool{resetCore: true, resetVars: true, resetRand: true, newInterp: true}
+	// a helper whose only callers are reset/construction functions is part of them
+	for changed := true; changed; {
+		changed = false
+		for _, g := range c.srcFuncs("interp") {
+			if resetFns[g] || g.Parent() != nil {
+				continue
+			}
+			callers, all := 0, true
+			for _, h := range c.srcFuncs("interp") {
+				h := h
+				allInstrs(h, func(in ssa.Instruction) {
+					if call, ok := in.(ssa.CallInstruction); ok && call.Common().StaticCallee() == g {
+						callers++
+						root := h
+						for root.Parent() != nil {
+							root = root.Parent()
+						}
+						if !resetFns[root] {
+							all = false
+						}
+					}
+				})
+			}
+			if callers > 0 && all {
+				resetFns[g] = true
+				changed = true
+			}
+		}
+	}
 
 	names := make([]string, 0, st.NumFields())
 	for i := 0; i < st.NumFields(); i++ {
@@ -423,12 +569,46 @@ func ruleReset(c *Ctx) {
 }
 
 // mustStoreBeforeCall: interp fields definitely stored before the (first) call of the named function.
+// mustStoreBeforeCall: the interp fields (and "call:g" pseudo-facts) established on every path before fn reaches
+// a call of the function named callee - directly, or inside a function of the package it calls (then what that
+// function establishes before its own call is added).
 func mustStoreBeforeCall(fn *ssa.Function, callee string) map[string]bool {
+	return mustStoreBeforeCallD(fn, callee, 0)
+}
+
+func reachesCall(fn *ssa.Function, callee string, depth int, seen map[*ssa.Function]bool) bool {
+	if depth > 4 || seen[fn] {
+		return false
+	}
+	seen[fn] = true
+	found := false
+	allInstrs(fn, func(in ssa.Instruction) {
+		if call, ok := in.(ssa.CallInstruction); ok && !found {
+			if cal := call.Common().StaticCallee(); cal != nil {
+				if cal.Name() == callee {
+					found = true
+				} else if cal.Pkg == fn.Pkg && len(cal.Blocks) > 0 && reachesCall(cal, callee, depth+1, seen) {
+					found = true
+				}
+			}
+		}
+	})
+	return found
+}
+
+func mustStoreBeforeCallD(fn *ssa.Function, callee string, depth int) map[string]bool {
 	out := mustStoreOut(fn)
+	var result map[string]bool
 	for _, b := range fn.Blocks {
 		for i, in := range b.Instrs {
 			call, ok := in.(ssa.CallInstruction)
-			if !ok || call.Common().StaticCallee() == nil || call.Common().StaticCallee().Name() != callee {
+			if !ok || call.Common().StaticCallee() == nil {
+				continue
+			}
+			cal := call.Common().StaticCallee()
+			direct := cal.Name() == callee
+			via := !direct && depth < 4 && cal.Pkg == fn.Pkg && len(cal.Blocks) > 0 && reachesCall(cal, callee, 0, map[*ssa.Function]bool{})
+			if !direct && !via {
 				continue
 			}
 			var fact map[string]bool
@@ -442,15 +622,68 @@ func mustStoreBeforeCall(fn *ssa.Function, callee string) map[string]bool {
 					fact = intersect(fact, out[p])
 				}
 			}
+			if fact == nil {
+				fact = map[string]bool{}
+			}
 			for _, prev := range b.Instrs[:i] {
 				if n, _ := interpFieldStore(prev); n != "" {
 					fact[n] = true
 				}
+				if pc, ok := prev.(*ssa.Call); ok {
+					if g := pc.Call.StaticCallee(); g != nil && g.Pkg == fn.Pkg && len(g.Blocks) > 0 {
+						fact["call:"+g.Name()] = true
+						for k := range mustStoreAtSuccess(g) {
+							fact[k] = true
+						}
+					}
+				}
 			}
-			return fact
+			if via {
+				for k := range mustStoreBeforeCallD(cal, callee, depth+1) {
+					fact[k] = true
+				}
+			}
+			if result == nil {
+				result = fact
+			} else {
+				result = intersect(result, fact)
+			}
 		}
 	}
-	return map[string]bool{}
+	if result == nil {
+		return map[string]bool{}
+	}
+	return result
+}
+
+// resetHelpers: the reset function and the methods of the same receiver it calls as top-level statements
+// (a reset split into parts), transitively.
+func resetHelpers(c *Ctx, name string) []*ast.FuncDecl {
+	var out []*ast.FuncDecl
+	seen := map[string]bool{}
+	var add func(n string)
+	add = func(n string) {
+		if seen[n] {
+			return
+		}
+		seen[n] = true
+		fd := c.funcDecl("interp", n)
+		if fd == nil || fd.Body == nil {
+			return
+		}
+		out = append(out, fd)
+		for _, st := range fd.Body.List {
+			if es, ok := st.(*ast.ExprStmt); ok {
+				if call, ok := es.X.(*ast.CallExpr); ok {
+					if se, ok := call.Fun.(*ast.SelectorExpr); ok {
+						add("interp." + se.Sel.Name)
+					}
+				}
+			}
+		}
+	}
+	add(name)
+	return out
 }
 
 func indexOfField(st *types.Struct, name string) int {
